@@ -40,6 +40,7 @@ def build(desc, side, ctx=None):
     ctx = ctx or Ctx(side)
     b = Built()
     b.tool, b.ctx, b.side = tool, ctx, side
+    ctx.built = b  # (a callable double may act on the sources of its own case, see "grows_source")
     b.srcs = []
     for i, s in enumerate(desc["srcs"]):
         if s.get("alias") is not None:
